@@ -14,6 +14,7 @@ package c19
 
 import (
 	"fmt"
+	"io"
 	"math/rand"
 	"os"
 	"path/filepath"
@@ -33,29 +34,33 @@ func init() { reg.Register("C19", Run) }
 
 // runRec is one row of writer_rec.ndjson (see spec/WriterTrace.tla).
 type runRec struct {
-	ID   int    `json:"id"`
-	Mode string `json:"mode"`
-	St   int    `json:"st"`
-	P    int    `json:"p"`
-	K    int    `json:"k"`
+	ID   int      `json:"id"`
+	Mode string   `json:"mode"`
+	St   int      `json:"st"`
+	P    int      `json:"p"`
+	K    int      `json:"k"`
+	F0   int      `json:"f0"`  // 1: the writer is shared with an earlier call of the history and failed there
 	Ifs  []string `json:"ifs"` // optional interfaces of the writer (StringWriter, ByteWriter, ReaderFrom)
-	Via  []int  `json:"via"`   // method of each logged call: 0 Write, 1 WriteString, 2 WriteByte, 3 ReadFrom
-	Off  []int  `json:"off"`
-	Acc  []int  `json:"acc"`
-	Err  []int  `json:"err"`
-	N    int64  `json:"n"`
-	E    int    `json:"e"`
-	Dlen int    `json:"dlen"`
-	Lcp  int    `json:"lcp"`
-	Slen int    `json:"slen"`
-	Sw   int    `json:"sw"`
-	H    int    `json:"h"`  // position in a history of back-to-back calls (0: main loop)
-	Bc   int    `json:"bc"` // calls of the first never-failing WriteTo of this module to a writer with the same interfaces
+	Via  []int    `json:"via"` // method of each logged call: 0 Write, 1 WriteString, 2 WriteByte, 3 ReadFrom
+	Off  []int    `json:"off"`
+	Acc  []int    `json:"acc"`
+	Err  []int    `json:"err"`
+	N    int64    `json:"n"`
+	E    int      `json:"e"`
+	Dlen int      `json:"dlen"`
+	Lcp  int      `json:"lcp"`
+	Slen int      `json:"slen"`
+	Sw   int      `json:"sw"`
+	H    int      `json:"h"`  // position in a history of back-to-back calls (0: main loop)
+	Bc   int      `json:"bc"` // calls of the first never-failing WriteTo of this module to a writer with the same interfaces
+	Sh   int      `json:"sh"` // position in a history of calls that share ONE writer (0: the writer is this call's own)
 
 	src   int // index of the subject
 	panic string
 	b     behaviour
 	pre   *runRec // the call made just before this one in the same goroutine
+	// shared-writer history this call belongs to: the modules written one after the other to the one writer
+	shSubs []int
 }
 
 // softInfra reports an infrastructure problem; if violations were already found the verdict stands
@@ -81,24 +86,49 @@ func lcp(a []byte, s string) int {
 	return n
 }
 
-// runOne calls the real Module.WriteTo against an instrumented writer.
+// runOne calls the real Module.WriteTo against an instrumented writer of its own.
 func runOne(id, src int, s *subject, b behaviour, rng *rand.Rand) *runRec {
 	w := newWriter(b, len(s.Str), rng)
-	r := &runRec{ID: id, Mode: b.Mode, P: b.Piece, K: b.Cap, Ifs: ifaceNames(b.Ifs), src: src, b: b, Slen: len(s.Str), Bc: len(s.ChunksBy[b.Ifs&ifAll])}
+	return runOn(id, src, s, w, asWriter(w, b.Ifs))
+}
+
+// runOn calls the real Module.WriteTo against the instrumented writer w (wr is w with its method set),
+// which earlier calls may have used: the row describes THIS call - the state of the writer when the call
+// started (capacity left, failed flag), the calls it received, the bytes that reached the sink during the
+// call; call numbers and the identity of the returned error count from the start of this call (an error
+// value the writer returned to an earlier WriteTo is "some other error", -1).
+func runOn(id, src int, s *subject, w *iw, wr io.Writer) *runRec {
+	b := w.b
+	start, sink0, sw0 := len(w.log), len(w.sink), w.sinkW
+	r := &runRec{ID: id, Mode: b.Mode, P: b.Piece, K: w.cap, Ifs: ifaceNames(b.Ifs), src: src, b: b, Slen: len(s.Str), Bc: len(s.ChunksBy[b.Ifs&ifAll])}
 	if b.Sticky {
 		r.St = 1
 	}
+	if w.failed {
+		r.F0 = 1
+	}
 	var n int64
 	var err error
-	if msg, p := mbt.Guard(func() { n, err = s.M.WriteTo(asWriter(w, b.Ifs)) }); p {
+	if msg, p := mbt.Guard(func() { n, err = s.M.WriteTo(wr) }); p {
 		r.panic = msg
 	}
 	r.N, r.E = n, w.errIdentity(err)
-	r.Via, r.Off, r.Acc, r.Err = make([]int, len(w.log)), make([]int, len(w.log)), make([]int, len(w.log)), make([]int, len(w.log))
-	for i, c := range w.log {
-		r.Via[i], r.Off[i], r.Acc[i], r.Err[i] = c.via, c.off, c.acc, c.err
+	if r.E > 0 {
+		if r.E > start {
+			r.E -= start
+		} else {
+			r.E = -1
+		}
 	}
-	r.Dlen, r.Lcp, r.Sw = len(w.sink), lcp(w.sink, s.Str), w.sinkW
+	log := w.log[start:]
+	r.Via, r.Off, r.Acc, r.Err = make([]int, len(log)), make([]int, len(log)), make([]int, len(log)), make([]int, len(log))
+	for i, c := range log {
+		r.Via[i], r.Off[i], r.Acc[i], r.Err[i] = c.via, c.off, c.acc, c.err
+		if c.err != 0 {
+			r.Err[i] = c.err - start
+		}
+	}
+	r.Dlen, r.Lcp, r.Sw = len(w.sink)-sink0, lcp(w.sink[sink0:], s.Str), w.sinkW-sw0
 	return r
 }
 
@@ -314,6 +344,34 @@ func design(rep *mbt.Report, tier string) {
 	for _, inv := range []string{"NoThreePieces", "NoFailInLaterPiece", "NoWriteString", "NoWriteByte", "NoReadFrom"} {
 		add("vacuity-direct/"+inv, "Writer", "WriterDirect.cfg", []string{inv}, devDirect, []string{inv})
 	}
+	// Histories in which a later call goes to the SAME writer (it keeps its remaining capacity and its failed
+	// flag), up to three calls, and the writer mode "edge" (an error together with a full count).  As written
+	// every law holds per call.
+	devShared := map[string]string{"MaxChunks": "2"}
+	shared := map[string]string{}
+	if tier == "thorough" {
+		devShared = map[string]string{}
+		shared = map[string]string{"UnitSizes": "{0, 1, 2, 3}", "Pieces": "{0, 1, 2}", "LaterModes": `{"never", "whole", "prefix", "edge"}`}
+	}
+	add("shared-writer", "Writer", "WriterShared.cfg", nil, shared, nil)
+	// the wrapper kept per destination writer: count and latch continue in the next call to that writer
+	perWriter := merge(devShared, map[string]string{"PerWriterWrapper": "TRUE"})
+	for _, inv := range []string{"CountExact", "FirstError", "HealthyAfterFailure"} {
+		add("per-writer-wrapper/"+inv, "Writer", "WriterShared.cfg", []string{inv}, perWriter, []string{inv})
+	}
+	add("per-writer-wrapper/other-laws", "Writer", "WriterShared.cfg", []string{"TypeOK", "NoWriteAfterFailure", "PrefixDelivered"}, perWriter, nil)
+	add("per-writer-wrapper/invisible-with-a-writer-per-call", "Writer", "WriterShared.cfg", nil, merge(perWriter, map[string]string{"ShareChoices": "{FALSE}"}), nil)
+	// a short count taken for the failure signal: an error with a full count is missed
+	short := merge(devShared, map[string]string{"LatchOn": `"short"`})
+	for _, inv := range []string{"FirstError", "NoWriteAfterFailure"} {
+		add("latch-on-short-count/"+inv, "Writer", "WriterShared.cfg", []string{inv}, short, []string{inv})
+	}
+	add("latch-on-short-count/other-laws", "Writer", "WriterShared.cfg", []string{"TypeOK", "CountExact", "PrefixDelivered", "NoFailEqualsString", "FailsAtCapacity"}, short, nil)
+	add("latch-on-short-count/invisible-without-full-count-errors", "Writer", "WriterShared.cfg", nil,
+		merge(short, map[string]string{"Modes": `{"never", "whole", "prefix"}`, "ShareChoices": "{FALSE}"}), nil)
+	for _, inv := range []string{"NoSharedRecovery", "NoSharedStuck", "NoThirdSharedCall", "NoFullCountError"} {
+		add("vacuity-shared/"+inv, "Writer", "WriterShared.cfg", []string{inv}, nil, []string{inv})
+	}
 	sem := make(chan struct{}, 5)
 	var wg sync.WaitGroup
 	for _, j := range jobs {
@@ -336,7 +394,7 @@ func design(rep *mbt.Report, tier string) {
 			mbt.Infra("Writer.tla, configuration %s: TLC reports violated=%v, the specification expects %v (specification error)", j.name, got, want)
 		}
 		outcome[j.name] = map[string]interface{}{"states": j.res.Distinct, "violated": got}
-		if j.name == "as-written" || j.name == "rechunk-equiv" {
+		if j.name == "as-written" || j.name == "rechunk-equiv" || j.name == "shared-writer" {
 			rep.AddTLC(j.res)
 		}
 		j.res.Cleanup()
@@ -379,14 +437,14 @@ func generate(rep *mbt.Report, subs []*subject, small []int, pieces []int, large
 	for _, si := range small {
 		rows = append(rows, genRow{C: append([]int{}, subs[si].Chunks...), All: 1, K: []int{0}, P: pieces})
 		srcs = append(srcs, si)
-		// first calls: every capacity x {whole, prefix} x {sticky, recovering} x pieces, plus never x pieces;
+		// first calls: every capacity x ({whole, prefix} x {sticky, recovering} + edge) x pieces, plus never x pieces;
 		// second calls (healthy writer): pieces x {after a failed call, after a successful call}
-		want += (len(subs[si].Str)+1)*4*len(pieces) + len(pieces) + 2*len(pieces)
+		want += (len(subs[si].Str)+1)*5*len(pieces) + len(pieces) + 2*len(pieces)
 	}
 	for _, si := range largeSubs {
 		rows = append(rows, genRow{C: append([]int{}, subs[si].Chunks...), All: 0, K: largeCaps[si], P: lPieces})
 		srcs = append(srcs, si)
-		want += len(largeCaps[si])*4*len(lPieces) + len(lPieces) + 2*len(lPieces)
+		want += len(largeCaps[si])*5*len(lPieces) + len(lPieces) + 2*len(lPieces)
 	}
 	t := mbt.MustTLC(mbt.TLCOpts{Spec: "Writer", Cfg: "WriterGen.cfg", Workers: 8, Timeout: 15 * time.Minute,
 		Data: map[string][]byte{"chunks.ndjson": mbt.NDJSONBytes(rows)}})
@@ -520,6 +578,9 @@ func errName(e int) string {
 
 // class is the writer class of the run, marked when the call followed a failed call of a history.
 func (r *runRec) class() string {
+	if r.Sh > 1 {
+		return r.b.class() + "@later-call-on-a-shared-writer"
+	}
 	if r.H > 1 {
 		return r.b.class() + "@after-failed-call"
 	}
@@ -527,6 +588,13 @@ func (r *runRec) class() string {
 }
 
 func (r *runRec) context(subs []*subject) string {
+	if r.Sh > 0 {
+		var names []string
+		for _, si := range r.shSubs {
+			names = append(names, subs[si].Name)
+		}
+		return fmt.Sprintf(" (call %d of the history %v on ONE shared writer; when this call started the writer had %d bytes of capacity left, failed before: %v)", r.Sh, names, r.K, r.F0 == 1)
+	}
 	if r.pre == nil {
 		return ""
 	}
@@ -537,6 +605,15 @@ func (r *runRec) context(subs []*subject) string {
 func caseOf(subs []*subject, r *runRec) map[string]interface{} {
 	c := map[string]interface{}{"subject": subs[r.src].Name, "mode": r.b.Mode, "sticky": r.b.Sticky, "piece": r.b.Piece, "cap": r.b.Cap, "ifs": r.b.Ifs,
 		"observed": map[string]interface{}{"n": r.N, "e": r.E, "calls": len(r.Off), "dlen": r.Dlen, "lcp": r.Lcp, "slen": r.Slen}}
+	if r.Sh > 0 { // the whole history on the one writer is replayed
+		var names []string
+		for _, si := range r.shSubs {
+			names = append(names, subs[si].Name)
+		}
+		c["shared_writer_history"] = names
+		c["position"] = r.Sh
+		return c
+	}
 	if r.pre != nil {
 		c["pre"] = map[string]interface{}{"subject": subs[r.pre.src].Name, "mode": r.pre.b.Mode, "sticky": r.pre.b.Sticky, "piece": r.pre.b.Piece, "cap": r.pre.b.Cap, "ifs": r.pre.b.Ifs}
 	}
@@ -709,6 +786,35 @@ func Run(tier, replay string) {
 			rep.Fail(mbt.Failure{Signature: "C19|String|differs after a failed WriteTo|" + cls, What: fmt.Sprintf("%s: String()%s has %d bytes, %d of them a prefix of the first String() (%d bytes)", s.Name, ctx, len(got), lcp([]byte(got), s.Str), len(s.Str)), Case: c})
 		}
 	}
+	// A history of calls that share ONE writer (two modules into one stream, a retry on the same file): the
+	// writer keeps what is left of its capacity and its failed flag; every call is a row of its own, judged
+	// as a call to a writer in that state.
+	sharedHist := func(srcs []int, b behaviour) []*runRec {
+		total := 0
+		for _, si := range srcs {
+			total += len(subs[si].Str)
+		}
+		w := newWriter(b, total, rng)
+		wr := asWriter(w, b.Ifs)
+		var rows []*runRec
+		for pos, si := range srcs {
+			id++
+			r := runOn(id, si, subs[si], w, wr)
+			r.H, r.Sh, r.pre, r.shSubs = pos+1, pos+1, last, srcs
+			last = r
+			recs = append(recs, r)
+			rows = append(rows, r)
+			key := fmt.Sprintf("shared|%s|pos%d|left%d|failed%d", b.fullKey(si), pos+1, r.K, r.F0)
+			for _, sj := range srcs {
+				key += "|" + subs[sj].Name
+			}
+			rep.Count(key, true)
+			if r.panic != "" {
+				rep.Fail(mbt.Failure{Signature: "C19|WriteTo|panic|" + r.class(), What: fmt.Sprintf("%s: call %d on the shared writer %+v: WriteTo panics: %s", subs[si].Name, pos+1, b, mbt.Truncate(r.panic, 200)), Case: caseOf(subs, r)})
+			}
+		}
+		return rows
+	}
 	byName := func(name string) int {
 		for si, s := range subs {
 			if s.Name == name {
@@ -729,6 +835,15 @@ func Run(tier, replay string) {
 	if replay != "" {
 		for _, c := range cases {
 			name, _ := c["subject"].(string)
+			if hist, ok := c["shared_writer_history"].([]interface{}); ok {
+				var srcs []int
+				for _, n := range hist {
+					ns, _ := n.(string)
+					srcs = append(srcs, byName(ns))
+				}
+				sharedHist(srcs, behaviourOf(c))
+				continue
+			}
 			h := 0
 			if pre, ok := c["pre"].(map[string]interface{}); ok {
 				pn, _ := pre["subject"].(string)
@@ -801,16 +916,19 @@ func Run(tier, replay string) {
 			}
 			main3 := []int{0, ifStringWriter, ifAll}
 			for i, k := range ks {
-				for mi, mode := range []string{"whole", "prefix"} {
+				for mi, mode := range []string{"whole", "prefix", "edge"} {
 					sets := append(append([]int{}, main3...), ifsReduced[(2*i+mi)%len(ifsReduced)])
+					if mode == "edge" { // an error with a full count: two interface sets in turn
+						sets = []int{main3[i%3], ifsReduced[i%len(ifsReduced)]}
+					}
 					if sparse {
-						if i%2 != mi {
+						if (mode != "edge" && i%2 != mi) || (mode == "edge" && i%3 != 0) {
 							continue
 						}
 						sets = []int{main3[(i/2)%3]}
 					}
 					for j, ifs := range sets {
-						newRun(si, behaviour{Mode: mode, Sticky: (i+j)%2 == 1, Piece: lPieces[(i/2+j)%len(lPieces)], Cap: k, Ifs: ifs}, 0)
+						newRun(si, behaviour{Mode: mode, Sticky: mode != "edge" && (i+j)%2 == 1, Piece: lPieces[(i/2+j)%len(lPieces)], Cap: k, Ifs: ifs}, 0)
 					}
 				}
 			}
@@ -853,24 +971,33 @@ func Run(tier, replay string) {
 			}
 		}
 		for _, k := range ks {
-			for _, mode := range []string{"whole", "prefix"} {
+			for _, mode := range []string{"whole", "prefix", "edge"} {
 				for _, st := range []bool{false, true} {
-					for _, p := range pieces {
+					if mode == "edge" && st { // the capacity is 0 after its failure: sticky by construction
+						continue
+					}
+					for pi, p := range pieces {
+						if mode == "edge" && tier != "thorough" && pi != 0 && pi != 1+k%(len(pieces)-1) {
+							continue // quick: in one piece and one of the re-chunking piece sizes, in turn
+						}
 						newRun(si, behaviour{Mode: mode, Sticky: st, Piece: p, Cap: k}, 0)
 					}
 				}
 				// + WriteString at the even offsets, all optional interfaces at the odd ones (thorough: both)
 				for j, ifs := range ifsEvery {
-					if tier == "thorough" || k%2 == j {
-						newRun(si, behaviour{Mode: mode, Sticky: (k/2+j)%2 == 1, Cap: k, Ifs: ifs}, 0)
+					if tier == "thorough" || (k%2 == j && (mode != "edge" || k%4 < 2)) {
+						newRun(si, behaviour{Mode: mode, Sticky: mode != "edge" && (k/2+j)%2 == 1, Cap: k, Ifs: ifs}, 0)
 					}
 				}
 			}
 		}
 		for i, k := range offsets(L, s.Chunks, false, stride) {
-			for _, mode := range []string{"whole", "prefix"} {
+			for _, mode := range []string{"whole", "prefix", "edge"} {
 				for j, ifs := range ifsReduced {
-					newRun(si, behaviour{Mode: mode, Sticky: (i+j)%2 == 1, Piece: pieces[(i+j)%len(pieces)], Cap: k, Ifs: ifs}, 0)
+					if mode == "edge" && j != i%len(ifsReduced) {
+						continue
+					}
+					newRun(si, behaviour{Mode: mode, Sticky: mode != "edge" && (i+j)%2 == 1, Piece: pieces[(i+j)%len(pieces)], Cap: k, Ifs: ifs}, 0)
 				}
 			}
 		}
@@ -956,7 +1083,74 @@ func Run(tier, replay string) {
 			}
 		}
 	}
+	// Histories on ONE shared writer: module A, module B, module A again written to the same writer, whose
+	// capacity ends inside / at the end of / just after each of the three calls; never-failing shared
+	// writers.  Every call must report its own count and its own first error, deliver a prefix of its own
+	// String(), and a recovering writer into which a later module fits must get all of it.
+	sharedHistories, sharedCalls := 0, 0
+	for si, s := range subs {
+		other := (si + 1) % len(subs)
+		for len(subs[other].Str) > 1<<20 || len(subs[other].Str) == 0 {
+			other = (other + 1) % len(subs)
+		}
+		if len(s.Str) > 1<<20 {
+			continue
+		}
+		srcs := []int{si, other, si}
+		L1, L2 := len(s.Str), len(subs[other].Str)
+		kset := map[int]bool{}
+		for _, base := range []int{0, L1, L1 + L2} {
+			l := L1
+			if base == L1 {
+				l = L2
+			}
+			for _, d := range []int{0, 1, l / 2, l - 1} {
+				if d >= 0 {
+					kset[base+d] = true
+				}
+			}
+			if tier == "thorough" && l <= gLimit {
+				for d := 0; d < l; d += 3 {
+					kset[base+d] = true
+				}
+			}
+		}
+		kset[2*L1+L2], kset[2*L1+L2+5] = true, true
+		// the capacity ends at the end of the largest Write of A (an exact fit) in call 1 and in call 3
+		pos, at := 0, 0
+		for _, c := range s.Chunks {
+			pos += c
+			if c == maxInt(s.Chunks) {
+				at = pos
+			}
+		}
+		kset[at], kset[L1+L2+at] = true, true
+		var ks []int
+		for k := range kset {
+			ks = append(ks, k)
+		}
+		sort.Ints(ks)
+		sets := []int{0, ifStringWriter, ifAll, ifByteWriter | ifReaderFrom}
+		for i, k := range ks {
+			for mi, mode := range []string{"whole", "prefix", "edge"} {
+				for _, st := range []bool{false, true} {
+					if st && (mode == "edge" || (s.Large && (i+mi)%2 == 0)) {
+						continue
+					}
+					b := behaviour{Mode: mode, Sticky: st, Piece: []int{0, 7, 0, 4096}[(i+mi)%4], Cap: k, Ifs: sets[(i+2*mi)%len(sets)]}
+					sharedCalls += len(sharedHist(srcs, b))
+					sharedHistories++
+				}
+			}
+		}
+		for i, ifs := range sets {
+			sharedCalls += len(sharedHist(srcs, behaviour{Mode: "never", Piece: []int{0, 7}[i%2], Ifs: ifs}))
+			sharedHistories++
+		}
+		checkString(si)
+	}
 	restore()
+	rep.Extra["histories_on_one_shared_writer"] = map[string]int{"histories": sharedHistories, "calls": sharedCalls}
 	rep.Extra["histories"] = histories
 	rep.Extra["string_calls_after_failed_WriteTo"] = stringChecks
 	lap("histories")
@@ -1032,7 +1226,8 @@ func Run(tier, replay string) {
 	for _, k := range keys {
 		if replayed[k] == nil {
 			unreplayed++
-			if src, _ := strconv.Atoi(strings.SplitN(k, "|", 2)[0]); isSmallSub[src] {
+			// (quick: the "edge" writers are run with some of the generator's piece sizes only)
+			if src, _ := strconv.Atoi(strings.SplitN(k, "|", 2)[0]); isSmallSub[src] && !(vecs[k].b.Mode == "edge" && tier != "thorough") {
 				softInfra(rep, "generator vector %s was not replayed", k)
 			}
 		}
